@@ -37,6 +37,7 @@ type C10Plan struct {
 	Reader   ReaderSpec  `json:"reader"`
 	Writer   WriterSpec  `json:"writer"`
 	ReprSeed uint64      `json:"repr_seed,omitempty"` // write: proof elements handed over in non-normalised / sign-flipped representations
+	Reuse    bool        `json:"reuse_receiver,omitempty"` // read: the receiver already holds another, earlier read proof
 }
 
 type c10 struct{}
@@ -122,6 +123,7 @@ func (*c10) Gen(seed uint64, run int, tier, variant string) interface{} {
 		return &p
 	}
 	p.Op = "read"
+	p.Reuse = r.Chance(20)
 	switch r.Intn(12) {
 	case 0: // honest, chunking/EOF style only
 	case 1, 2: // field-wise boundary substitution
@@ -438,7 +440,7 @@ type c10read struct {
 	equalSelf bool
 }
 
-func doRead(kind string, rd *SimReader) (o c10read) {
+func doRead(kind string, rd *SimReader, reuse []byte) (o c10read) {
 	defer func() {
 		if r := recover(); r != nil {
 			o.panicV = r
@@ -448,6 +450,12 @@ func doRead(kind string, rd *SimReader) (o c10read) {
 	switch kind {
 	case "multi":
 		var mp multiproof.MultiProof
+		if reuse != nil {
+			// the receiver is not fresh: it already went through a successful Read
+			if err := mp.Read(bytes.NewReader(reuse)); err != nil {
+				panic("harness: honest proof does not parse: " + err.Error())
+			}
+		}
 		o.err = mp.Read(rd)
 		if o.err == nil {
 			o.werr = mp.Write(&w)
@@ -458,6 +466,11 @@ func doRead(kind string, rd *SimReader) (o c10read) {
 		}
 	case "ipa":
 		var ip ipa.IPAProof
+		if reuse != nil {
+			if err := ip.Read(bytes.NewReader(reuse[32:])); err != nil {
+				panic("harness: honest proof does not parse: " + err.Error())
+			}
+		}
 		o.err = ip.Read(rd)
 		if o.err == nil {
 			o.werr = ip.Write(&w)
@@ -506,9 +519,14 @@ func (*c10) Exec(plan interface{}) Result {
 	if f := p.Reader.Fault; f != nil {
 		ft = fmt.Sprintf("readerr@%d sticky=%v withdata=%v", f.Offset, f.Sticky, f.WithData)
 	}
-	res.Shape = fmt.Sprintf("%s read %s len=%d flip=%d chunk=%s eofwd=%v fault=%s", p.Kind, class, len(data), p.Flip, p.Reader.Chunk, p.Reader.EOFWithData, ft)
+	res.Shape = fmt.Sprintf("%s read %s len=%d flip=%d chunk=%s eofwd=%v fault=%s reuse=%v", p.Kind, class, len(data), p.Flip, p.Reader.Chunk, p.Reader.EOFWithData, ft, p.Reuse)
 	rd := NewSimReader(data, p.Reader)
-	got := doRead(p.Kind, rd)
+	var reuse []byte
+	if p.Reuse && (p.Kind == "multi" || p.Kind == "ipa") {
+		reuse = c10honest[(p.Base+1+len(c10honest))%len(c10honest)]
+		res.fault("receiver-reused")
+	}
+	got := doRead(p.Kind, rd, reuse)
 	if rd.FaultFired() {
 		res.fault("read-error")
 		if p.Reader.Fault.Sticky {
